@@ -53,7 +53,7 @@ CLAIMED = {
         "C07_annotate_subtypeOf, C07_canonical_type_node, C07_subtypeOf_exact_plain (for a canon without Top/Bottom the subtypeOf set of a node with canonical type t is exactly the canonical supertypes "
         "of t, via C10), C07_type_memo / C07_type_once (one node per distinct type), C07_triples_mono. C07_src_stale (a source's type is read through the final store: repaired defect D30). Partial: with Top/Bottom canonical the transitive supertypes inherit known finding D6 (D6b), excused only "
         "where the model - which has the same look-through - agrees with the implementation; "
-        "the membership unions and non-canonical types are decided by correspondence (graph isomorphism with the model over random with_* switches) and the oracle.",
+        "the membership unions and non-canonical types are decided by correspondence (graph isomorphism with the model over random with_* switches) and the oracle. Membership (Props/C07Member.lean, 32): containsType = union of type and subtypeOf objects over the nodes added, containsOperation = union of via, exact gates per switch, lifted to add_workflow.",
         technique="Lean 4 proof (step-sequence invariants of the graph generator, reuse of C10/C14) + generated constants + model/implementation correspondence check (graph isomorphism)",
         ref="6/C07"),
  "C08": dict(text="On the graph model (types off, other switches arbitrary): C08_spine_one_node, C08_first_order (the from-edges equal those of an independently written spine layout flowFO), "
@@ -62,14 +62,14 @@ CLAIMED = {
         "internal node receives its own argument's node), C08_hof_wiring (the local rule for any expression and state), C08_edges_config_independent; abstractions (expanded composite operators, "
         "Model/GraphAbs.lean): C08a_embed (the abstraction-aware generator agrees with add_expr's model on abstraction-free expressions), C08a_params, C08a_lam_wiring, C08a_lam_identity, C08a_arg_wiring. "
         "Not covered by a theorem: shared objects and source-headed spines in the any-depth theorem, abstractions at any depth - decided by correspondence (the model builds the graph of every expansion "
-        "with the minimal switches) and by the independent Python data-flow construction under the minimal and a random switch combination.",
+        "with the minimal switches) and by the independent Python data-flow construction under the minimal and a random switch combination. Any depth WITH abstractions (Props/C08AbsDeep.lean): class HofA, layout flowHA, C08a_hofA_general (edges of addExprA = layout), agreement with flowHO on abstraction-free expressions.",
         technique="Lean 4 proof (simulation of add_expr by a pure edge function, incremental-to-whole-spine invariant) + model/implementation correspondence check (graph isomorphism)",
         ref="6/C08"),
  "C10": dict(text="On the canon model: C10_succ_sound_* / C10_links_sound / C10_reach_sound (every reported link is a strict sub/supertype, all configurations), C10_succ_complete_step, "
         "C10_reach_complete_tbfree_universe, C10_expandCanon_closed / C10_mkCanon_contains_subtypes / C10_canon_plain_iff (the canon is exactly the subtypes of the listed types), "
         "C10_canon_no_bottom / C10_canon_no_top, C10_expandCanon_order_irrelevant, C10_complete_tbfree, C10_reach_iff_plain and C10_mirror_plain (reachability = strict order and mirroring when "
         "neither Top nor Bottom is canonical). Partial: with Top/Bottom canonical completeness/mirroring fail (C10_counterexample_reach; known finding D6); the vocabulary triples are decided by "
-        "correspondence + oracle (known finding D24).",
+        "correspondence + oracle (known finding D24). Vocabulary (Model/Vocab.lean, compared with add_vocabulary through the driver command gvocab; Props/C10Vocab.lean, 33): subClassOf triples = direct links resp. their reflexive-transitive closure, described types = canon + parameters reached (D24 as it is), invariance under the canon's iteration order up to blank-node renaming.",
         technique="Lean 4 proof (covering-step completeness with a gap measure, work-list invariant, least closed set) + model/implementation correspondence check",
         ref="6/C10"),
  "C15": dict(text="On the model (the pure calculus: composite operators unfolded to anonymous functions, leftmost-outermost beta reduction on de Bruijn terms): C15_unfold_complete, "
@@ -77,7 +77,7 @@ CLAIMED = {
         "C15_idempotent (expanding again changes nothing), C15_sound / C15_primitive_is_reduction (only unfolding and beta steps), C15_confluent + C15_normal_form_unique + C15_equals_normal_form "
         "(Church-Rosser: the result IS the normal form, however computed), C15_complete / C15_none_iff_no_normal_form, C15_standard_agrees (an independent applicative-order evaluator agrees), "
         "C15_fuel_monotone. The model is tied to primitive() on all generated expressions, including definitions that duplicate a parameter (these crashed the implementation until defect D8 was repaired by "
-        "copy-on-substitution). Partial: type preservation and 'expands without type error in a language that validates' are decided by the oracle.",
+        "copy-on-substitution). Partial: type preservation and 'expands without type error in a language that validates' are decided by the oracle. Typed (Props/C15Typed.lean, 26): a simple type system with subsumption over the declared order; substitution lemma, subject reduction for beta and for unfolding typed definitions, C15t_primitive_preserves, minimal types go down along the expansion (monomorphic instances).",
         technique="Lean 4 proof (substitution lemmas, parallel reduction / Church-Rosser, standardisation) + model/implementation correspondence check + independent normaliser oracle",
         ref="6/C15"),
  "C16": dict(text="On the model (definitions are immutable data; the inference store is the only thing threaded between uses): C16_instantiate_fresh / C16_instantiate_twice_disjoint, C16_unify_frame / "
@@ -94,18 +94,18 @@ CLAIMED = {
         "model all other theorems are about), C18_csets_stay_sorted, C18_partial / C18_partial_block (two schedules that agree on every reachable pending set give the same run), C18_no_constraints, "
         "C18_single_constraint(_run) (schemas with at most one constraint are order-independent under every priority order), C18_fulfilled_noop / _swap. Tie: the scheduled engine is compared with "
         "the implementation under EVERY priority order (all permutations for <= 4 constraints) through the TRANSFORGE_VERIF hook; oracle: equal outcomes across all priority orders and sampled "
-        "per-point random orders; an internal error under any order is reported (this found and fixed D22, D23, D25).",
+        "per-point random orders; an internal error under any order is reported (this found and fixed D22, D23, D25). Every schedule is sound and assertion-free (Props/C18Sound.lean, 47). New order-independent fragment (Props/C18Disjoint.lean, 19): pairwise variable-disjoint constraints + concrete arguments run identically under every permuting schedule; counterexamples outside it.",
         technique="Lean 4 proof (schedule-parameterised copy of the unifier proved equal to the model at the identity schedule, invariant-based agreement of schedules, kernel-evaluated counterexamples) + model/implementation correspondence under imposed schedules",
         ref="6/C18"),
  "C19": dict(text="On the model: C19_worklist / C19_worklist_mkCanon (the canon does not depend on the order the work list is processed), C19_foldl_add_perm / C19_emission_perm(_canonical) (the triple "
         "set does not depend on the order in which set-valued collections are emitted), C19_model_deterministic. Partial by nature: hash-seed and allocation-history dependence is runtime behaviour "
-        "no model exhibits; it is exercised by generating every graph in fresh interpreters (PYTHONHASHSEED 0-3, random; after unrelated graphs; reversed listing) and comparing canonical digests of the literal text with only the running numbers removed, printed order included (this found and fixed D28).",
+        "no model exhibits; it is exercised by generating every graph in fresh interpreters (PYTHONHASHSEED 0-3, random; after unrelated graphs; reversed listing) and comparing canonical digests of the literal text with only the running numbers removed, printed order included (this found and fixed D28). Vocabulary: isomorphic graphs for any two iteration orders of the canon (Props/C19Vocab.lean).",
         technique="Lean 4 proof (permutation invariance of set-emitting folds) + cross-interpreter determinism check",
         ref="6/C19"),
  "C09": dict(text="Full for the repaired add_from: C09_step proves that one add_from call (plain and recursive branch, cycles allowed) keeps "
         "depends = transitive closure of from, C09_all lifts it to every call sequence in every order, C09_transitiveObjects proves the modelled "
         "rdflib transitive_objects (fuelled BFS) correct; C09_expression_graph / C09_workflow_graph lift it to every graph the modelled add_expr / add_workflow produce. Tie: recorded add_from call sequences of the real graph (random sequences and the calls made "
-        "by add_expr/add_workflow) are replayed on the model and the depends sets compared; oracle recomputes the closure of the real from-triples.",
+        "by add_expr/add_workflow) are replayed on the model and the depends sets compared; oracle recomputes the closure of the real from-triples. Also for the abstraction-aware generator (Props/C09Abs.lean): C09a_addExprA_closed, C09a_expression_graph.",
         technique="Lean 4 proof (invariant by induction over the operation sequence; path-splitting lemma) + model/implementation correspondence check",
         ref="6/C09"),
  "C14": dict(text="Full on the model: URI half - C14_uri_roundtrip_toks (decode . encode = id on every well-formed type), C14_uri_injective, C14_decode_sound, "
@@ -121,7 +121,7 @@ CLAIMED = {
         "C11_generates(_only) (generation fails exactly on cyclic tasks or types without URI), C11_drop_step / C11_subtask, C11_generalise, C11_absent_operator / C11_absent_type, C11_self, "
         "C11_predicates (every predicate of the query is one the graph generator emits; names re-extracted from source). Partial: unfold_tree is covered by correspondence only; the up-closedness "
         "of subtypeOf/containsType sets needed by C11_generalise is C07's theorem for plain canons and an assumption otherwise. Tie: SPARQL parsed back into clauses vs genQuery; verdicts of "
-        "rdflib, a plain matcher, the brute-force statement and the model's evaluator.",
+        "rdflib, a plain matcher, the brute-force statement and the model's evaluator. unfold_tree=True (Props/C11Unfold.lean, C11UnfoldCor.lean, 80): one variable per path, generated query iff MatchesUnfolded iff Matches of the unfolded task, relation between the two modes (implication, refuted converse, coincidence on tree-shaped tasks), and the Part-C consequences (sub-task, dropped step, generalisation, absent operator/type, self-match, monotonicity in the flags) for that mode.",
         technique="Lean 4 proof (soundness/completeness of the BGP evaluator, characterisation of assign_variables, clause-by-clause meaning) + model/implementation correspondence check",
         ref="6/C11"),
  "C12": dict(text="On the workflow model: C12_app_perm / C12_target_perm / C12_wfExpr_perm / C12_wfNode_perm and C12_order_partial (the listing order can only enter through source_types: given equal "
@@ -137,14 +137,14 @@ CLAIMED = {
         "spine and leaves its denotation), C13_parse_render, C13_redundant_parens, C13_paren_prefix, C13_call_atoms, C13_render_tree / C13_call_eq_juxtaposition "
         "(f x y = (f x) y = f(x, y) = ((f)(x))(y)), C13_inputs, C13_source(_fresh), C13_tokens (tokenizer on any layout), C13_comments, C13_trivia, C13_text(_trivia). "
         "Partial: annotations `e : T`, the typed half (same types as programmatic construction) and Expr.match are covered by correspondence (typed builder model vs "
-        "implementation on every notation and on Python construction) and by the oracle (incl. defaults=True with fewer inputs supplied, and re-parsing the same text: `-` is fresh), not by a theorem.",
+        "implementation on every notation and on Python construction) and by the oracle (incl. defaults=True with fewer inputs supplied, and re-parsing the same text: `-` is fresh), not by a theorem. Annotations and typed half (Props/C13Ann.lean, 27): renderings with `e : T` at every placement for any builder, trivia neutral everywhere (C13a_trivia_ann; this proof found defect D31), typed parse = curried programmatic construction, = the n-ary call when all arguments are supplied inputs, counterexample otherwise (equal only up to variable numbering).",
         technique="Lean 4 proof (stack-machine invariant generalised over the stack, induction over nested spines) + model/implementation correspondence check",
         ref="6/C13"),
  "C17": dict(text="Parsers full on the model: C17_parseType_no_internal / C17_parseExpr_no_internal (for every token list neither stack machine reaches an "
         "assertion/index/value error site, for any total expression builder), C17_parseType_consumes, C17_parseExpr_fuel_irrelevant (termination: the model's fuel "
         "never runs out, one token at least is consumed per step). Engine partial: instantiate/apply/unify/fix with constraints are tied by correspondence on "
         "constraint-heavy schemas and checked by the oracle (exception class in the declared families, 5 s bound per case); the interpreter recursion limit is outside "
-        "the model (known finding D11). Two assertion failures found on the unchanged tree (D25 under a re-check order, D29 with a bare-variable alternative) were repaired. Engine (Props/C17Engine.lean, C17e_*, 37): from every store with finite binding chains (all reachable stores) no function of the unifier, instantiate or apply returns an internal error, for any language, schema, arguments and fuel; the hypothesis is exact (on a cyclic store every assertion fires).",
+        "the model (known finding D11). Two assertion failures found on the unchanged tree (D25 under a re-check order, D29 with a bare-variable alternative) were repaired. Engine (Props/C17Engine.lean, C17e_*, 37): from every store with finite binding chains (all reachable stores) no function of the unifier, instantiate or apply returns an internal error, for any language, schema, arguments and fuel; the hypothesis is exact (on a cyclic store every assertion fires). Expression layer (Props/C17Expr.lean, 28): typed builder, parseTyped, fixExpr and calls never return an internal error from the empty state.",
         technique="Lean 4 proof (loop invariants on the parser stacks, suffix/fuel argument) + model/implementation correspondence check + declared-error oracle",
         ref="6/C17"),
  "C20": dict(text="Full for the repaired Bag.add: over any decidable partial order C20_union_specific/general (kept = minimal/maximal elements), "
